@@ -480,9 +480,14 @@ pub fn extract_field_option(tag: &str) -> Option<char> {
 pub fn parse_field_with_suffix(input: &str) -> (String, Option<char>) {
     if let Some(last_char) = input.chars().last()
         && last_char.is_alphabetic()
-        && input[..input.len() - 1].chars().all(|c| c.is_numeric())
+        && input[..input.len() - last_char.len_utf8()]
+            .chars()
+            .all(|c| c.is_numeric())
     {
-        return (input[..input.len() - 1].to_string(), Some(last_char));
+        return (
+            input[..input.len() - last_char.len_utf8()].to_string(),
+            Some(last_char),
+        );
     }
     (input.to_string(), None)
 }
